@@ -401,7 +401,7 @@ func (o *Obj) ToK8s() client.Object {
 	case KSecret:
 		s := &api.Secret{ObjectMeta: meta(o)}
 		s.Data = SecretData(o)
-		if o.SecretKind == "tls" || o.SecretKind == "tlsca" {
+		if o.SecretKind == "tls" || o.SecretKind == "tlsca" || o.SecretKind == "tlschain" {
 			s.Type = api.SecretTypeTLS
 		}
 		return s
